@@ -366,7 +366,7 @@ pub fn gen(out: &mut Out, thorough: bool) {
         if let Ok((v, _)) = Value::parse_str(doc) { l(request_for(&v), out); }
     }
     // numbers alone
-    let nn = if thorough { 200000 } else { 30000 };
+    let nn = if thorough { 1500000 } else { 30000 };
     for _ in 0..nn {
         let n = gen_number(&mut out.rng);
         if let Ok(b) = json_syntax::NumberBuf::new(n.into_bytes().into()) { l(request_for(&Value::Number(b)), out); }
@@ -382,7 +382,7 @@ pub fn gen(out: &mut Out, thorough: bool) {
     } } }
     out.exhaustive.push("all ordered pairs of 11 boundary characters (with 3 suffixes) as the two keys of an object".into());
     // generated I-JSON values
-    let m = if thorough { 30000 } else { 5000 };
+    let m = if thorough { 300000 } else { 5000 };
     for i in 0..m {
         let v = gen_ijson(&mut out.rng, 0, if i % 5 == 0 { 4 } else { 2 });
         l(request_for(&v), out);
